@@ -62,6 +62,18 @@ def near_requests(rng, size, unit, alloc, align, n=5):
         if ln <= 0:
             continue
         reqs.append(["raw", a, ln])
+    if alloc:
+        # sequential access inside one allocated unit (two, three reads in a row, each continuing where the last stopped),
+        # then a jump: what a request costs does not depend on the requests before it
+        u = rng.pick(alloc)
+        step = max(align, 8192 - 8192 % align)
+        a0 = u * unit + rng.pick([0, step, (unit // 2) - (unit // 2) % step])
+        for k in range(rng.randint(2, 3)):
+            if a0 + (k + 1) * step <= min(size, (u + 1) * unit):
+                reqs.append(["raw", a0 + k * step, step])
+        far = rng.pick(alloc) * unit
+        if far + align <= size:
+            reqs.append(["raw", far, align])
     return reqs or [["raw", 0, align]]
 
 
